@@ -158,7 +158,7 @@ def replay(ei, ci, prefix):
 
 
 def run(tier, seed, result):
-    bound, cap = (2, 1500) if tier == 'quick' else (3, 20000)
+    bound, cap = (2, 1500) if tier == 'quick' else (3, 6000)
     jobs = [(ei, ci, bound, cap) for ei in range(len(EMITS))
             for ci in range(len(CHANGERS))]
     total = 0
